@@ -9,8 +9,8 @@
     the variable is `orderedvarnames[permids[j]]` when `.orderedvarnames` is present,
     else `suppvarnames[j]`.
 
-  (Files with neither `.orderedvarnames` nor `.suppvarnames` have no names; the loader
-  invents `permids[level]` as the name of a level — not covered here.)
+  Files with neither `.orderedvarnames` nor `.suppvarnames` have no names; the loader
+  invents the `int` `permids[L]` as the name of level `L` (`levels_nameless_eq`).
 -/
 import DDProofs.DddmpProofs
 open Std
@@ -156,6 +156,19 @@ theorem levels_ordered_eq (h : dddmpHeader f = .ok (i2p, levels, roots))
   obtain ⟨_, permids, _, _, _, _, _, hL, _⟩ := dddmpHeader_inv h
   simp [dddmpLevels, ho] at hL
   exact hL.symm
+
+/-- without any list of names: the loader's `levels` table is the one `.orderedvarnames` would
+give for the names `permids[0], permids[1], …` (Python `int`s) -/
+theorem levels_nameless_eq (h : dddmpHeader f = .ok (i2p, levels, roots))
+    (ho : f.orderedvarnames = none) (hs : f.suppvarnames = none)
+    {permids : List Int} (hp : f.permids = some permids) :
+    levels = enumDict (permids.map DddmpTok.num) := by
+  obtain ⟨_, permids', _, _, hp', _, _, hL, _⟩ := dddmpHeader_inv h
+  rw [hp] at hp'
+  cases hp'
+  simp only [dddmpLevels, ho, hs, Except.ok.injEq] at hL
+  rw [← hL, enumDict, List.zipIdx_map, List.map_map]
+  rfl
 
 /-- without `.orderedvarnames`: the variable at level `permids[j]` is `suppvarnames[j]` -/
 theorem levels_supp (h : dddmpHeader f = .ok (i2p, levels, roots))
